@@ -59,7 +59,9 @@ def option_values(name, r):
 
 CC = {"C": (["gcc", "-c", "-O1", "-g0", "-w", "-std=gnu11"], "t.c", "t.o"),
       "CPP": (["g++", "-c", "-O1", "-g0", "-w", "-std=gnu++17", "-frandom-seed=1"], "t.cpp", "t.o"),
-      "JAVA": (["javac", "-g:none", "-nowarn"], "T.java", "T.class")}
+      "JAVA": (["javac", "-g:none", "-nowarn"], "T.java", "T.class"),
+      # Objective-C: the C programs of the generator, read by uncrustify as OC and compiled by clang as Objective-C (gcc has no cc1obj here)
+      "OC": (["clang-14", "-x", "objective-c", "-c", "-O1", "-g0", "-w", "-std=gnu11"], "t.m", "t.o")}
 
 
 def compile_obj(lang, data, base):
@@ -382,7 +384,9 @@ def run(ctx):
             if i % 7 == 6:
                 lang = "JAVA"
             txt = cgen.program(rng, lang, stats=ctx.hist, style=rng.choice(["random", "random", "clean"]), div_deref=(i % 2 == 0))
-            ext = {"C": ".c", "CPP": ".cpp", "JAVA": ".java"}[lang]
+            if lang == "C" and i % 3 == 2 and shutil.which("clang-14"):
+                lang = "OC"
+            ext = {"C": ".c", "CPP": ".cpp", "JAVA": ".java", "OC": ".m"}[lang]
             progs.append((sc.write(txt, ext), lang, txt))
         base_obj = {}
         for (p, lang, txt), (obj, err) in zip(progs, common.pmap(lambda pr: compile_obj(pr[1], pr[2].encode(), sc.dir), progs)):
